@@ -71,8 +71,10 @@ def zeros (n : Nat) : Bytes := List.replicate n 0
 /-! limb-level ops: an operand arrives as an integer; the element is built by the GENERATED `SetBigInt` into a
     destination whose limbs are all stale, results are read back through the GENERATED `ToBigIntRegular`. -/
 def stale (n : Nat) : List Nat := (List.range n).map fun i => 0xdeadbeef00000001 + i
-def ffEl (v : Int) : List Nat := (ffl_Element_SetBigInt (stale 4) v).1
-def ffgEl (v : Int) : List Nat := (ffgl_Element_SetBigInt (stale 1) v).1
+-- operands are built exactly as the harness builds them: `NewElement().SetBigInt(v)` (fresh destination);
+-- only the ops that TEST a constructor use a stale destination, as the harness does
+def ffEl (v : Int) : List Nat := (ffl_Element_SetBigInt ffl_NewElement v).1
+def ffgEl (v : Int) : List Nat := (ffgl_Element_SetBigInt ffgl_NewElement v).1
 def ffVal (l : List Nat) : String := toString (ffl_Element_ToBigIntRegular l (-5)).1
 def ffgVal (l : List Nat) : String := toString (ffgl_Element_ToBigIntRegular l (-5)).1
 
@@ -81,7 +83,9 @@ def limbOp (ff : Bool) (op : String) (args : List String) : Option String := do
   let val := fun (l : List Nat) => if ff then ffVal l else ffgVal l
   let n := if ff then 4 else 1
   match op, args with
-  | "setbigint", [v] => pure (val (el (← parseInt? v)))
+  | "setbigint", [v] =>
+    let v ← parseInt? v
+    pure (val (if ff then (ffl_Element_SetBigInt (stale n) v).1 else (ffgl_Element_SetBigInt (stale n) v).1))
   | "setstring", [v] => pure (val (if ff then (ffl_Element_SetString (stale n) v).1 else (ffgl_Element_SetString (stale n) v).1))
   | "setbytes", [b] =>
     let b ← parseBytes? b
